@@ -10,6 +10,12 @@ import (
 	"golang.org/x/tools/go/ssa"
 )
 
+func init() {
+	if c := os.Getenv("GOVC_CLASSES"); c != "" {
+		onlyClasses = strings.Split(c, ",")
+	}
+}
+
 func main() {
 	if len(os.Args) < 2 {
 		fmt.Fprintln(os.Stderr, "usage: govc <dump|externs|verify|check> ...")
